@@ -94,6 +94,15 @@ def sources():
     if not na:
         raise fp.Unsupported("Model.memoize: assignment to normalized_arg not found")
     out["memo_norm"] = na[0].value
+    # the time the equation is EVALUATED at, and the keys the result is looked up / stored under
+    calls = [n for n in ast.walk(mm) if isinstance(n, ast.Call) and isinstance(n.func, ast.Subscript)
+             and ast.unparse(n.func.value) == "self.equations" and n.args]
+    if not calls:
+        raise fp.Unsupported("Model.memoize: call of the equation not found")
+    out["memo_call_arg"] = calls[0].args[0]
+    keys = [n.slice for n in ast.walk(mm) if isinstance(n, ast.Subscript) and ast.unparse(n.value) == "mymemo"]
+    keys += [n.left for n in ast.walk(mm) if isinstance(n, ast.Compare) and "mymemo" in ast.unparse(n.comparators[0])]
+    out["memo_keys"] = keys
     out["model_globals"] = Model.memoize.__globals__
     # bptk.run_step: clock update
     rs = ast.parse(textwrap.dedent(inspect.getsource(bptk.run_step))).body[0]
@@ -176,10 +185,16 @@ def obligations(src, start, dt, K, chains=True):
     # 4 routes through Model.memoize's normalisation
     menv = lambda arg: {"arg": arg, "self.dt": dt, "self.starttime": start}
 
-    def memo(ctx, arg):
+    def memo(ctx, arg, what=None):
+        """the time Model.memoize evaluates the equation at (default), or one of its memo keys, for the argument `arg`"""
         sub = fp.Ctx([src["model_globals"]])
         sub.decls, sub.asserts, sub.inlined, sub.n = ctx.decls, ctx.asserts, ctx.inlined, ctx.n
         r = fp.eval_expr(sub, src["memo_norm"], menv(arg))
+        expr = what if what is not None else src["memo_call_arg"]
+        if ast.unparse(expr) != "normalized_arg":
+            env2 = dict(menv(arg))
+            env2["normalized_arg"] = r
+            r = fp.eval_expr(sub, expr, env2)
         ctx.n = sub.n
         return r
     ctx, G = new()
@@ -191,6 +206,11 @@ def obligations(src, start, dt, K, chains=True):
     ctx, G = new()
     raw = fp.fp_bin("add", start, fp.fp_bin("mul", fp.Sx("k"), dt))
     obs.append(("memo-key(start+k*dt)", fp.script(ctx, [neq(memo(ctx, raw), G(0))], ["k"])))
+    # the keys the result is looked up / stored under must be the same grid value (only if they are not the normalised name itself)
+    for kexpr in src["memo_keys"]:
+        if ast.unparse(kexpr) != "normalized_arg":
+            ctx, G = new()
+            obs.append(("memo-key(G(k+1)-dt)", fp.script(ctx, [neq(memo(ctx, fp.fp_bin("sub", G(1), dt), kexpr), G(0))], ["k"])))
     if chains:
         ctx, G = new()
         chain = fp.fp_bin("add", fp.fp_bin("add", fp.fp_bin("add", G(0), dt), dt), dt)
